@@ -820,6 +820,60 @@ void caseScale(vrt::Case& c)
   else scaleCase<double>(c, s / 8, s % 8, static_cast<int>(sm), static_cast<int>(ab));
 }
 
+// ---- scale(A,a,b) with scalars of another type than the entries (Matrix and Scalar are independent template parameters):
+// int entries with real a, b and double entries with int a, b.  The definition a.m+b is one expression in the common type of
+// scalar and entry.  Real a, b are multiples of 1/2 or 1/8, so a.m+b is an exact multiple of 1/8 in double: when it is an
+// integer an int entry must hold exactly that integer, otherwise either neighbouring integer is accepted (the statement fixes
+// no rounding mode for the conversion to the entry type): |stored - (a.m+b)| <= 7/8 < 1.
+template<class S, class T> void scaleMixedCase(vrt::Case& c, size_t r, size_t cc, int sm, int ab)
+{
+  const bool intM = is_same<S, int>::value;
+  int mode = sm == 2 ? 1 : 0;
+  Dense<S> A0 = genDense<S>(c.rng, r, cc, mode);
+  long long den = intM ? (c.rng.chance(0.5) ? 2 : 8) : 1;
+  T a = static_cast<T>(c.rng.range(-9 * den, 9 * den)) / static_cast<T>(den), b = static_cast<T>(c.rng.range(-9 * den, 9 * den)) / static_cast<T>(den);
+  bool defaultB = false;
+  switch (ab)
+  {
+  case 0: a = 1; b = 0; break;
+  case 1: a = 1; break;
+  case 2: a = 0; break;
+  case 3: b = 0; defaultB = true; break;
+  case 4: a = -1; b = 0; break;
+  default: ab = 5; break;
+  }
+  Exp e(r, cc);
+  for (size_t i = 0; i < r; ++i)
+    for (size_t j = 0; j < cc; ++j)
+    {
+      LD p = static_cast<LD>(a) * static_cast<LD>(A0(i, j));
+      e.at(i, j) = p + static_cast<LD>(b);
+      if (intM) e.tl(i, j) = e.at(i, j) == floorl(e.at(i, j)) ? 0 : 0.875L;
+      else e.tl(i, j) = mode ? 8 * EPS * (fabsl(p) + fabsl(static_cast<LD>(b))) : 0;
+    }
+  const char* abn[] = { "a=1,b=0", "a=1", "a=0", "b-defaulted", "a=-1,b=0", "general" };
+  const char* smn[] = { "int-entries,real-scalars", "double-int-entries,int-scalars", "double-real-entries,int-scalars" };
+  string cls = string("shape=") + sc(r, cc) + "," + abn[ab] + "," + smn[sm];
+  vrt::describe("scale-mixed:" + cls, string("scale(A,a,b) ") + smn[sm] + " " + str(r) + "x" + str(cc) + " a=" + num(a) + " b=" + num(b));
+  vrt::cover("scale-mixed:" + cls);
+  Checker<S> ck("scale-mixed", cls, [&] { return string("scale(") + smn[sm] + " A=" + dumpD(A0) + ", a=" + num(a) + ", b=" + num(b) + ")"; });
+  for (int route = 0; route < 4; ++route)
+  {
+    int kind = route < 3 ? route : static_cast<int>(c.rng.below(3));
+    auto m = fromDense<S>(kind, A0);
+    if (!m) { vrt::tally("skipped-unrepresentable-operand"); continue; }
+    string name = string(1, KN[kind]) + (route == 3 ? "b" : "");
+    Out o = call([&] { asKind<S>(*m, route, [&](auto& AA) { if (defaultB) MatrixTools::scale(AA, a); else MatrixTools::scale(AA, a, b); }); });
+    if (ck.returned(o, name)) ck.check(*m, kind, name, e, 0, "A");
+  }
+}
+void caseScaleMixed(vrt::Case& c)
+{
+  size_t s = c.index % 64, sm = (c.index / 64) % 3, ab = (c.index / 192) % 8; // ab 5..7: general a, b
+  if (sm == 0) scaleMixedCase<int, double>(c, s / 8, s % 8, 0, static_cast<int>(ab));
+  else scaleMixedCase<double, int>(c, s / 8, s % 8, static_cast<int>(sm), static_cast<int>(ab));
+}
+
 // ---- transpose(A,O) and copy(A,O)
 template<class S> void transposeCase(vrt::Case& c, size_t r, size_t cc, int sm, int pre, bool isCopy)
 {
@@ -1875,12 +1929,44 @@ void caseLapExhaustive(vrt::Case& c)
   lapCheck<int>(di, static_cast<int>(c.index % 3), 0, false, cls + ",int", "int");
 }
 
+// cost matrix of one of the nine flavours (same draws, in the same order, as the first version of caseLapRandom)
+const char* LAPFN[] = { "ints-0..3", "ints--9..9", "ints-0..100", "reals", "real-ties", "rank-one-sum", "monge", "sparse-big", "permuted-diagonal" };
+Dense<double> lapCosts(vrt::Rng& g, size_t n, int flavour)
+{
+  Dense<double> d(n, n);
+  vector<double> tie = { g.real(-5, 5), g.real(-5, 5), g.real(-5, 5) };
+  vector<long long> ra(n), rb(n);
+  for (size_t i = 0; i < n; ++i) { ra[i] = g.range(-5, 5); rb[i] = g.range(-5, 5); }
+  vector<size_t> perm(n);
+  iota(perm.begin(), perm.end(), 0);
+  g.shuffle(perm);
+  for (size_t i = 0; i < n; ++i)
+    for (size_t j = 0; j < n; ++j)
+    {
+      double x = 0;
+      switch (flavour)
+      {
+      case 0: x = static_cast<double>(g.range(0, 3)); break;
+      case 1: x = static_cast<double>(g.range(-9, 9)); break;
+      case 2: x = static_cast<double>(g.range(0, 100)); break;
+      case 3: x = g.real(-10, 10); break;
+      case 4: x = tie[g.below(3)]; break;
+      case 5: x = static_cast<double>(ra[i] + rb[j] + (g.chance(0.15) ? 1 : 0)); break;
+      case 6: x = static_cast<double>((i + 1) * (j + 1)); break;
+      case 7: x = g.chance(0.7) ? 1000.0 : static_cast<double>(g.range(0, 5)); break;
+      default: x = perm[i] == j ? 0.0 : static_cast<double>(g.range(1, 4));
+      }
+      d(i, j) = x;
+    }
+  return d;
+}
+
 void caseLapRandom(vrt::Case& c)
 {
   size_t n = 1 + c.rng.below(7);
   if (c.index % 50 == 0) n = 0;
   int flavour = static_cast<int>(c.rng.below(9));
-  const char* fn[] = { "ints-0..3", "ints--9..9", "ints-0..100", "reals", "real-ties", "rank-one-sum", "monge", "sparse-big", "permuted-diagonal" };
+  const char* const* fn = LAPFN;
   bool realCosts = flavour == 3 || flavour == 4;
   if (c.index % 25 == 24)
   {
@@ -1901,31 +1987,7 @@ void caseLapRandom(vrt::Case& c)
     }
     return;
   }
-  Dense<double> d(n, n);
-  vector<double> tie = { c.rng.real(-5, 5), c.rng.real(-5, 5), c.rng.real(-5, 5) };
-  vector<long long> ra(n), rb(n);
-  for (size_t i = 0; i < n; ++i) { ra[i] = c.rng.range(-5, 5); rb[i] = c.rng.range(-5, 5); }
-  vector<size_t> perm(n);
-  iota(perm.begin(), perm.end(), 0);
-  c.rng.shuffle(perm);
-  for (size_t i = 0; i < n; ++i)
-    for (size_t j = 0; j < n; ++j)
-    {
-      double x = 0;
-      switch (flavour)
-      {
-      case 0: x = static_cast<double>(c.rng.range(0, 3)); break;
-      case 1: x = static_cast<double>(c.rng.range(-9, 9)); break;
-      case 2: x = static_cast<double>(c.rng.range(0, 100)); break;
-      case 3: x = c.rng.real(-10, 10); break;
-      case 4: x = tie[c.rng.below(3)]; break;
-      case 5: x = static_cast<double>(ra[i] + rb[j] + (c.rng.chance(0.15) ? 1 : 0)); break;
-      case 6: x = static_cast<double>((i + 1) * (j + 1)); break;
-      case 7: x = c.rng.chance(0.7) ? 1000.0 : static_cast<double>(c.rng.range(0, 5)); break;
-      default: x = perm[i] == j ? 0.0 : static_cast<double>(c.rng.range(1, 4));
-      }
-      d(i, j) = x;
-    }
+  Dense<double> d = lapCosts(c.rng, n, flavour);
   int vecState = static_cast<int>(c.rng.below(4));
   string cls = "n=" + str(n);
   vrt::describe("lap-random:" + cls, string("lap ") + str(n) + "x" + str(n) + " " + fn[flavour] + " vectors " + str(vecState));
@@ -1938,6 +2000,54 @@ void caseLapRandom(vrt::Case& c)
     Dense<int> di(n, n);
     for (size_t t = 0; t < d.a.size(); ++t) di.a[t] = static_cast<int>(d.a[t]);
     lapCheck<int>(di, static_cast<int>(c.rng.below(3)), vecState, false, cls + ",int", string("int ") + fn[flavour]);
+  }
+}
+
+// lap on costs of large magnitude and large spread (the statement quantifies over all cost matrices): the nine flavours are
+// transformed to c'(i,j) = s.c(i,j) + a_i + b_j with a scale s (power of two up to 2^30 or power of ten up to 1e9) and/or
+// row and column offsets of 1e5..1e9.  Everything stays integer-valued for the integer flavours (|c'| < 2^41, so every sum
+// and difference inside the solver is exact and the comparison stays exact); the int instantiation runs when |c'| <= 3e7.
+// Same oracle as lap-random: brute force over all permutations and the dual certificate on the transformed matrix itself.
+void caseLapLarge(vrt::Case& c)
+{
+  size_t n = 1 + c.rng.below(7);
+  int flavour = static_cast<int>(c.rng.below(9));
+  bool realCosts = flavour == 3 || flavour == 4;
+  Dense<double> d = lapCosts(c.rng, n, flavour);
+  int tr = static_cast<int>(c.rng.below(4)); // 0 power-of-two scale, 1 decimal scale, 2 offsets only, 3 decimal scale and offsets
+  const char* trn[] = { "scale-pow2", "scale-pow10", "offsets", "scale-and-offsets" };
+  double s = 1;
+  if (tr == 0) s = ldexp(1.0, static_cast<int>(c.rng.range(10, 30)));
+  else if (tr != 2) { long long k = c.rng.range(3, 9); for (long long t = 0; t < k; ++t) s *= 10; }
+  vector<double> ro(n, 0.0), co(n, 0.0);
+  if (tr >= 2)
+  {
+    double mag = 1e5;
+    for (long long t = c.rng.range(0, 4); t > 0; --t) mag *= 10;
+    bool rows = c.rng.chance(0.75), cols = !rows || c.rng.chance(0.4);
+    for (size_t i = 0; i < n; ++i)
+    {
+      if (rows) ro[i] = static_cast<double>(c.rng.range(-1, 5)) * mag;
+      if (cols) co[i] = static_cast<double>(c.rng.range(-1, 5)) * mag;
+    }
+  }
+  double maxAbs = 0;
+  for (size_t i = 0; i < n; ++i)
+    for (size_t j = 0; j < n; ++j) { d(i, j) = d(i, j) * s + ro[i] + co[j]; maxAbs = max(maxAbs, fabs(d(i, j))); }
+  int vecState = static_cast<int>(c.rng.below(4));
+  bool withInt = !realCosts && maxAbs <= 3e7;
+  string cls = "n=" + str(n) + ",large-costs";
+  vrt::describe("lap-large:" + cls, string("lap ") + str(n) + "x" + str(n) + " " + LAPFN[flavour] + " " + trn[tr] + " scale " + num(s) + " vectors " + str(vecState));
+  vrt::cover("lap-large:n=" + str(n) + ":" + LAPFN[flavour]);
+  vrt::cover(string("lap-large:") + LAPFN[flavour] + ":" + trn[tr] + (withInt ? ":double+int" : ":double"));
+  vrt::note("cost=" + dumpD(d));
+  string tag = string(LAPFN[flavour]) + " " + trn[tr];
+  for (int kind = 0; kind < 3; ++kind) lapCheck<double>(d, kind, vecState, realCosts, cls, tag);
+  if (withInt)
+  {
+    Dense<int> di(n, n);
+    for (size_t t = 0; t < d.a.size(); ++t) di.a[t] = static_cast<int>(d.a[t]);
+    lapCheck<int>(di, static_cast<int>(c.rng.below(3)), vecState, false, cls + ",int", "int " + tag);
   }
 }
 } // namespace
@@ -1953,6 +2063,7 @@ int main(int argc, char** argv)
     { "mult-complex-diag", 2048 + 2500, 2048 + 50000, caseMultComplex<true>, 300, false },
     { "add", 576 + 4000, 576 + 100000, caseAdd, 300, false },
     { "scale", 64 * 3 * 6, 64 * 3 * 6 * 4, caseScale, 300, false },
+    { "scale-mixed", 64 * 3 * 8, 64 * 3 * 8 * 4, caseScaleMixed, 300, false },
     { "transpose-copy", 2 * 64 * 3 * NPRE, 2 * 64 * 3 * NPRE, caseTranspose, 300, true },
     { "pow", 8 * 11 * 3 * NPRE + 1000, 8 * 11 * 3 * NPRE + 20000, casePow, 300, false },
     { "taylor", 8 * 7 * 3 * 4 + 1000, 8 * 7 * 3 * 4 + 20000, caseTaylor, 300, false },
@@ -1966,6 +2077,7 @@ int main(int argc, char** argv)
     { "storage", 20000, 1000000, caseStorage, 300, false },
     { "lap-exhaustive", 3 + 81 + 625 + 19683, 3 + 81 + 625 + 19683 + 65536, caseLapExhaustive, 300, true },
     { "lap-random", 24000, 2000000, caseLapRandom, 300, false },
+    { "lap-large", 6000, 500000, caseLapLarge, 300, false },
   };
   vrt::Meta meta;
   meta.rule = "One group per routine family. Conformable cases enumerate every operand shape 0..7 per dimension (mult family: all 512 (m,k,n); unary/binary element-wise routines: all 64 shapes; "
@@ -1973,17 +2085,19 @@ int main(int argc, char** argv)
       "result pre-state (unsized, exact size with garbage, larger, smaller, other shape); inside a case the routine runs for every combination of RowMatrix/ColMatrix/LinearMatrix per operand and result "
       "(27 for three matrices; a sample of the 729 for the complex-pair routines, all 729 in the thorough tier; routines that are templates over the matrix class also through the abstract base). "
       "Non-conformable cases draw a random shape mismatch of one operand. lap: every cost matrix over {0,1,2} for n<=3, {-2..2} for n=2 ({0,1} for n=4 in the thorough tier) and random matrices of nine "
-      "flavours up to 7x7 with output vectors of four pre-states. A class key = (routine, dimension classes 0/1/n resp. square/wide/tall per operand, scalar mode, pre-state or mismatch kind); every key "
+      "flavours up to 7x7 with output vectors of four pre-states; lap-large: the same flavours scaled by 2^10..2^30 / 1e3..1e9 and/or shifted by row and column offsets of 1e5..1e9 (double, and int when |c| <= 3e7). "
+      "scale-mixed: scale() with scalars of another type than the entries (int entries with real a, b in multiples of 1/2 or 1/8; double entries with int a, b). A class key = (routine, dimension classes 0/1/n resp. square/wide/tall per operand, scalar mode, pre-state or mismatch kind); every key "
       "involves a real call of the routine.";
   meta.assumptions = {
     "entries are finite; integer-valued entries are small enough for every intermediate value to be exact, so the comparison is exact; real entries are compared with the long double value of the same finite sum within 8.(k+c).eps.sum|terms|",
     "shapes a storage class cannot hold (0xn in RowMatrix, nx0 in ColMatrix) are skipped for operands and reported as 0x0 for results",
     "the empty cases the definitions leave open are not judged: covariance of an empty sample, extremum of an empty matrix, tridiagonal factor of order 0, copyUp/copyDown without rows, fillDiag on a non-square matrix may also raise DimensionException",
     "lap: dual feasibility and cost identities are exact for integer costs and within 1024.n^2.eps.max|c| for real costs; a non-square cost matrix must raise any bpp::Exception; output vectors may be left longer than n",
+    "scale on int entries with real scalars: a.m+b is exact in double; an integer value must be stored exactly, a non-integer value may be stored as either neighbouring integer",
     "results are required to be identical (bitwise) across storage classes, since all classes run the same generic loops",
   };
   meta.requiredClauses = { "mult.value", "mult.dims", "mult.nonconformable", "mult.storage-independent", "mult-diag.value", "mult-tridiag.value", "mult-complex.value", "mult-complex-diag.value",
-                           "add.value", "add.nonconformable", "add-scaled.value", "scale.value", "transpose.value", "copy.value", "pow.value", "pow.nonconformable", "taylor.value", "kron.value",
+                           "add.value", "add.nonconformable", "add-scaled.value", "scale.value", "scale-mixed.value", "transpose.value", "copy.value", "pow.value", "pow.nonconformable", "taylor.value", "kron.value",
                            "kron-scalar-identity.value", "kron-replaced-diagonals.value", "hadamard.value", "hadamard-complex.value", "hadamard-row-weights.value", "hadamard-col-weights.value",
                            "hadamard.nonconformable", "directsum.value", "directsum-list.value", "covar.value", "extrema.whichMax", "extrema.whichMin", "extrema.max", "extrema.min", "extrema.sumElements",
                            "symmetric.value", "getId.value", "diag-from-vector.value", "fill.value", "storage.read-back", "storage.resize-dims", "lap.optimal", "lap.dual-feasible", "lap.dual-tight",
